@@ -233,19 +233,17 @@ K_AUDIO_SLOW = dict(name="K-core::audio-float", package="rustzx-core", features=
                                "frame_position": ["ZXController::frame_pos"]},
                     assumptions=CORE_ASSUME + ["f64 division/multiplication decided bit-precisely by CBMC (slow: minutes)"])
 
-K_VTX = dict(name="K-vtx", package="vtx", harnesses=["play_mono", "play_stereo", "play_empty"], jobs=3, timeout=2400,
-             bounded={"play_mono": "2 frames, samples_per_frame 1..2, two play() calls (first length 0..4, then the rest), 10-sample buffer",
-                      "play_stereo": "2 frames, samples_per_frame 1..2, two play() calls (first length 0..4, then the rest), 10-sample buffer",
-                      "play_empty": "0 frames"},
+K_VTX = dict(name="K-vtx", package="vtx", harnesses=["play_mono", "play_stereo"], jobs=2, timeout=2400,
+             bounded={"play_mono": "register bytes symbolic; enumerated: 2 frames (and 0 frames), samples_per_frame in {1,2}, first play() call of 0..4 samples then the rest",
+                      "play_stereo": "register bytes symbolic; enumerated: 2 frames (and 0 frames), samples_per_frame in {1,2}, first play() call of 0..4 samples then the rest"},
              functions={"*": ["Player::new", "Player::play", "Player::update_ay"]},
              assumptions=["recording AymBackend (sample k has value k) stands in for the chip; harness spliced into vtx (overlay)"])
 
 K_LOADERS = dict(name="K-core::loaders", package="rustzx-core", features="full",
-                 harnesses=["sna_header_48k", "sna_header_128k", "sna_reject", "sna_fault_48k", "szx_one_block"], jobs=5, timeout=3000,
-                 bounded={"szx_one_block": "SZX files of one block with <= 40 data bytes, stored (not zlib) pages, 4-byte stand-in pages"},
-                 functions={"sna_header_48k": ["sna::load (header decode)", "Z80::set_im", "ZXColor::from_bits"], "sna_header_128k": ["sna::load (128K path)"], "sna_reject": ["sna::load (size / model checks)"], "sna_fault_48k": ["sna::load (error paths)"],
-                            "szx_one_block": ["szx::load", "szx::process_z80r_block", "process_spcr_block", "process_ay_block", "process_keyb_block",
-                                              "process_amxm_block", "process_crtr_block", "process_ramp_block (stored pages)"]},
+                 harnesses=["sna_header_48k", "sna_header_128k", "sna_rejects", "sna_faults_48k", "sna_faults_128k", "szx_z80r", "szx_spcr", "szx_ay", "szx_keyb", "szx_amxm", "szx_crtr", "szx_ramp", "szx_unknown"], jobs=5, timeout=3000,
+                 bounded={h: "SZX file of one block; declared size / length enumerated in {0, min-1, min, 40, 2^31}; block content symbolic; stored pages; 4-byte stand-in pages" for h in ["szx_z80r", "szx_spcr", "szx_ay", "szx_keyb", "szx_amxm", "szx_crtr", "szx_ramp", "szx_unknown"]},
+                 functions={"sna_header_48k": ["sna::load (header decode)", "Z80::set_im", "ZXColor::from_bits"], "sna_header_128k": ["sna::load (128K path)"], "sna_rejects": ["sna::load (size / model checks)"], "sna_faults_48k": ["sna::load (error paths)"], "sna_faults_128k": ["sna::load (error paths)"],
+                            "szx_z80r": ["szx::load", "szx::process_z80r_block"], "szx_spcr": ["szx::process_spcr_block"], "szx_ay": ["szx::process_ay_block", "ZXAyChip::set_regs"], "szx_keyb": ["szx::process_keyb_block"], "szx_amxm": ["szx::process_amxm_block"], "szx_crtr": ["szx::process_crtr_block"], "szx_ramp": ["szx::process_ramp_block (stored pages)"], "szx_unknown": ["szx::load (unknown block skipped)"]},
                  assumptions=CORE_ASSUME + CTL_STUBS + [
                      "asset = in-memory array with a symbolic reported length and a symbolic injected read/seek failure index",
                      "page accessors replaced by 4-byte stand-in pages (see K-core::sna); refresh_memory_dependent_devices stubbed",
